@@ -424,21 +424,21 @@ Qed.
      constructor calls (any keywords except UNCHANGED; a positional key must be a scalar),
      every helper called copy-on-write (_inplace=False) with scalar arguments and scalar callbacks,
      deepcopy, argument objects of scalars built by the caller, and in place, on an instance created
-     by a constructor call of the history and for an attribute nothing is invalidated by:
-     `obj.a = <scalar>`, `del obj.a`, `obj.with_<a>(<scalar>, _inplace=True)`, `obj.reset_<a>(_inplace=True)` —
+     by a constructor call of the history, for ANY attribute (dependants are reset by invalidation):
+     `obj.a = <scalar>`, `del obj.a`, `obj.with_<a>(<scalar>, _inplace=True)`,
+     `obj.reset_<a>(_inplace=True)`, `obj.reset(_inplace=True)` —
    the instances returned by the constructor calls of the history sit at pairwise different cells,
    each is a live cell, and no cell is reachable from two of them (invariant PD, preserved by every
    step: SepMore3.peer_step).  Tables: no do_not_copy=True classes, no do_not_copy attributes,
    scalar_table, tgb.
    Proviso (what keeps this partial): every heap an operation of the history starts from is free of
    dangling references (`run_wf`; decidable: `run_wfb`, lemma run_wfb_ok).  Still missing beyond that:
-   (discharged below for scalar arguments); in-place reset() / update_ / transform_ / element helpers
-   and attributes with dependants in the alphabet; instances obtained as copies; do_not_copy
-   attributes. *)
+   (discharged below for scalar arguments); in-place update_ / transform_ / element helpers and
+   update(_inplace=True) in the alphabet; instances obtained as copies; do_not_copy attributes. *)
 Theorem C08_peers_disjoint_history_if_no_dangling :
   forall ct, no_dnc_classes ct -> scalar_table ct -> tgb ct = true -> no_dnc_attrs ct ->
   forall ops s roots,
-    ops_ok ct (length roots) [] ops -> run_wf ct s roots ops ->
+    ops_ok (length roots) [] ops -> run_wf ct s roots ops ->
     forall i j ci pi kwi fi cj pj kwj fj li lj,
       nth_error ops i = Some (OpConstruct ci pi kwi, fi) ->
       nth_error ops j = Some (OpConstruct cj pj kwj, fj) -> i <> j ->
@@ -476,14 +476,14 @@ Qed.
 (* C08_peers_disjoint over histories, without the proviso; PARTIAL only in its alphabet:
    constructor calls with scalar keywords, every helper called copy-on-write with scalar
    arguments, deepcopy, argument objects of scalars, and in place on a constructor-created instance
-   (attribute without dependants): obj.a = <scalar>, del obj.a, with_<a>(<scalar>, _inplace=True),
-   reset_<a>(_inplace=True). *)
+   (any attribute): obj.a = <scalar>, del obj.a, with_<a>(<scalar>, _inplace=True),
+   reset_<a>(_inplace=True), reset(_inplace=True). *)
 Theorem C08_peers_disjoint_history_partial :
   forall ct, no_dnc_classes ct -> scalar_table ct -> tgb ct = true -> no_dnc_attrs ct ->
   forall n0, (forall c k a, lookup_cls ct c = Some k -> vb n0 (class_default k a)) ->
   forall ops s roots,
     n0 <= length (heap s) -> wf_heap (heap s) -> Forall (vb (length (heap s))) roots ->
-    ops_ok ct (length roots) [] ops -> Forall (fun p => op_scalar (fst p)) ops ->
+    ops_ok (length roots) [] ops -> Forall (fun p => op_scalar (fst p)) ops ->
     forall i j ci pi kwi fi cj pj kwj fj li lj,
       nth_error ops i = Some (OpConstruct ci pi kwi, fi) ->
       nth_error ops j = Some (OpConstruct cj pj kwj, fj) -> i <> j ->
@@ -501,7 +501,7 @@ Qed.
 Example C08_peers_disjoint_partial_nonvacuous :
   (forall c k a, lookup_cls exp_ct c = Some k -> vb 1 (class_default k a)) /\
   wf_heap [OList [VInt 1]] /\ Forall (vb 1) [VRef 0] /\
-  ops_ok exp_ct 1 [] exp_ops /\ Forall (fun p => op_scalar (fst p)) exp_ops.
+  ops_ok 1 [] exp_ops /\ Forall (fun p => op_scalar (fst p)) exp_ops.
 Proof.
   split; [|split; [|split; [|split]]].
   - intros c k a H. unfold lookup_cls in H. apply find_some in H. destruct H as [[<-|[]] _].
@@ -518,7 +518,7 @@ Qed.
 Theorem C08_peers_invariant_preserved :
   forall ct, no_dnc_classes ct -> scalar_table ct -> tgb ct = true -> no_dnc_attrs ct ->
   forall ops s roots T,
-    ops_ok ct (length roots) T ops -> run_wf ct s roots ops -> PD s roots T ->
+    ops_ok (length roots) T ops -> run_wf ct s roots ops -> PD s roots T ->
     PD (fst (run_ops ct s roots ops)) (snd (run_ops ct s roots ops)) (tracked (length roots) T ops).
 Proof. intros ct H1 H2 H3 H4. exact (peers_disjoint_history ct H1 H2 H3 H4). Qed.
 
@@ -526,7 +526,7 @@ Proof. intros ct H1 H2 H3 H4. exact (peers_disjoint_history ct H1 H2 H3 H4). Qed
    reference at any step; the final heap *)
 Example C08_peers_disjoint_nonvacuous :
   tgb exp_ct = true /\
-  ops_ok exp_ct 1 [] exp_ops /\
+  ops_ok 1 [] exp_ops /\
   run_wfb exp_ct (mkst [OList [VInt 1]] 0 None) [VRef 0] exp_ops = true /\
   (let '(s', roots') := run_ops exp_ct (mkst [OList [VInt 1]] 0 None) [VRef 0] exp_ops in
    roots' = [VRef 0; VRef 1; VRef 3; VNone; VRef 5; VRef 8] /\
@@ -540,7 +540,7 @@ Proof. exact peers_disjoint_nonvacuous. Qed.
 (* non-vacuity of the in-place part of the alphabet: the history above followed by
    del p.xs; p.with_n(4, _inplace=True); q.reset_x(_inplace=True) *)
 Example C08_peers_disjoint_inplace_nonvacuous :
-  ops_ok exp_ct 1 [] exp_ops2 /\
+  ops_ok 1 [] exp_ops2 /\
   run_wfb exp_ct (mkst [OList [VInt 1]] 0 None) [VRef 0] exp_ops2 = true /\
   (let '(s', roots') := run_ops exp_ct (mkst [OList [VInt 1]] 0 None) [VRef 0] exp_ops2 in
    roots' = [VRef 0; VRef 1; VRef 3; VNone; VRef 5; VRef 8; VNone; VRef 1; VRef 3] /\
@@ -548,6 +548,19 @@ Example C08_peers_disjoint_inplace_nonvacuous :
    nth_error (heap s') 3 = Some (OInst 2 [(50, VRef 11); (51, VInt 3)]) /\
    nth_error (heap s') 0 = Some (OList [VInt 1])).
 Proof. exact peers_disjoint_inplace_nonvacuous. Qed.
+
+(* non-vacuity with an attribute that HAS a dependant (ys invalidated by n): p.n = 7 resets p.ys to a
+   fresh copy; then p.reset(_inplace=True) *)
+Example C08_peers_disjoint_dependants_nonvacuous :
+  tgb exq_ct = true /\ dependants exq_cls 51 = [52] /\
+  ops_ok 1 [] exq_ops /\
+  run_wfb exq_ct (mkst [OList [VInt 1]] 0 None) [VRef 0] exq_ops = true /\
+  (let '(s', roots') := run_ops exq_ct (mkst [OList [VInt 1]] 0 None) [VRef 0] exq_ops in
+   roots' = [VRef 0; VRef 1; VRef 3; VNone; VRef 1] /\
+   nth_error (heap s') 0 = Some (OList [VInt 1]) /\
+   nth_error (heap s') 1 = Some (OInst 2 [(51, VInt 3); (52, VRef 7)]) /\
+   nth_error (heap s') 3 = Some (OInst 2 [(51, VInt 3); (52, VRef 4)])).
+Proof. exact peers_disjoint_dependants_nonvacuous. Qed.
 
 Print Assumptions C08_construct_fresh.
 Print Assumptions C08_default_is_fresh.
@@ -576,3 +589,4 @@ Print Assumptions C08_no_dangling_reference_is_ever_stored.
 Print Assumptions C08_peers_disjoint_history_partial.
 Print Assumptions C08_peers_disjoint_partial_nonvacuous.
 Print Assumptions C08_peers_disjoint_inplace_nonvacuous.
+Print Assumptions C08_peers_disjoint_dependants_nonvacuous.
